@@ -232,8 +232,18 @@ class MetaEngine:
                 f = callee(e)
                 nm = f["name"] if f else e.get("ctor", "?").rsplit("::", 1)[-1]
                 return ("call", nm) + tuple(ev(a, st) for a in e["args"])
-            if k == "Block" and e.get("expr") is not None and not e.get("stmts"):
+            if k == "Block" and e.get("expr") is not None and (not e.get("stmts") or e.get("projected")):
                 return ev(e["expr"], st)
+            if k == "Tup":
+                return ("tup",) + tuple(ev(x, st) for x in e["es"])
+            if k == "If" and e.get("el") is not None:
+                a, b = ev(e["th"], st), ev(e["el"], st)
+                return a if a == b else UNK
+            if k == "Match":
+                vals = [ev(arm["body"], st) for arm in e["arms"] if facts.ty(arm["body"]) != "!"]
+                if vals and all(v == vals[0] for v in vals):
+                    return vals[0]
+                return UNK
             return UNK
 
         def new_obj(st, fields):
@@ -291,8 +301,29 @@ class MetaEngine:
             o[oid] = d
             return {"a": st["a"], "o": o, "v": st["v"]}
 
+        def unwrapped(pat):
+            """`Some(x)` / `Ok(x)` (let-else, if-let, match arm): the binding x of a transparent wrapper pattern"""
+            if pat.get("k") in ("PStruct", "PTupleStruct") and pat.get("path", "").rsplit("::", 1)[-1] in ("Some", "Ok"):
+                subs = [q for q in walk(pat) if q.get("k") == "PBind"]
+                if len(subs) == 1:
+                    return subs[0]
+            return None
+
         def transfer(n, st):
             k = n.get("k")
+            if k in ("Let", "LetE") and n.get("pat") and unwrapped(n["pat"]) is not None and "init" in n:
+                n = {"k": "Let", "pat": unwrapped(n["pat"]), "init": n["init"]}
+                k = "Let"
+            if k == "ArmPat" and unwrapped(n["pat"]) is not None:
+                n = {"k": "Let", "pat": unwrapped(n["pat"]), "init": n["scrut"]}
+                k = "Let"
+            if k == "Let" and n["pat"].get("k") == "PTuple" and "init" in n:
+                val = ev(n["init"], st)
+                v = dict(st["v"])
+                for i, q in enumerate(n["pat"]["ps"]):
+                    if q.get("k") == "PBind":
+                        v[q["lid"]] = val[i + 1] if isinstance(val, tuple) and val and val[0] == "tup" and i + 1 < len(val) else UNK
+                return {"a": st["a"], "o": st["o"], "v": v}
             if k == "Let":
                 pat = n["pat"]
                 if pat.get("k") == "PBind" and "init" in n:
